@@ -3,6 +3,7 @@ package mergep
 import (
 	"fmt"
 
+	"verif/inst"
 	"verif/rng"
 	"verif/runner"
 )
@@ -52,6 +53,17 @@ func C01() *runner.Property {
 			if tier == "thorough" {
 				nf = 120
 			}
+			// deterministic tie family: two native instances write conflicting versions at the same timestamp
+			tvals := []string{"live-empty", "a", "b", "deleted"}
+			for _, ts := range []uint64{0, 1, 1 << 40} {
+				for i, va := range tvals {
+					for j, vb := range tvals {
+						if i < j {
+							cs = append(cs, runner.MkCase("ties", fmt.Sprintf("ts%d-%s-vs-%s", ts, va, vb), tieCase{TS: ts, A: va, B: vb}))
+						}
+					}
+				}
+			}
 			for i := 0; i < nf; i++ {
 				q := quietFleet{Native: i%2 == 0, Padding: i%5 == 4, N: 2 + i%3, Writes: 15 + r.Intn(40), Seed: r.U64()}
 				cs = append(cs, runner.MkCase("realloops", fmt.Sprintf("%d-native=%v-n%d", i, q.Native, q.N), q))
@@ -60,6 +72,12 @@ func C01() *runner.Property {
 		},
 		Run: func(c runner.Case, env *runner.Env) (res runner.Result) {
 			res.Key = c.ID
+			if c.Family == "ties" {
+				var t tieCase
+				runner.Params(c, &t)
+				runTie(t, env, &res)
+				return
+			}
 			if c.Family == "realloops" {
 				var q quietFleet
 				runner.Params(c, &q)
@@ -77,4 +95,66 @@ func C01() *runner.Property {
 // HistCases exposes the history generator to other checks (C14's write monitor).
 func HistCases(tier string, seed int64, salt uint64, n int) []runner.Case {
 	return histCases(tier, seed, salt, []int{20, 40}, n, 1)
+}
+
+type tieCase struct {
+	TS uint64 `json:"ts"`
+	A  string `json:"a"`
+	B  string `json:"b"`
+}
+
+// runTie: instance i0 writes version A, i1 writes version B of the same key at the same timestamp; snapshots are
+// exchanged in both arrival orders (two fleets); all four instances must end with the same version.
+func runTie(t tieCase, env *runner.Env, res *runner.Result) {
+	mk := func(v string) appOp {
+		op := appOp{DBI: "d0", Key: "k", TS: t.TS}
+		switch v {
+		case "deleted":
+			op.Del = true
+		case "live-empty":
+			op.Val = ""
+		default:
+			op.Val = v
+		}
+		return op
+	}
+	var finals []inst.Ver
+	for order := 0; order < 2; order++ {
+		h := Hist{Native: true, NInst: 2, NDBI: 1, NKeys: 1, Seed: uint64(order)}
+		f, err := newFleet(h, env, res, "C01", fmt.Sprintf("tie%d", order))
+		if err != nil {
+			res.Verdict, res.Msg = runner.Inconclusive, err.Error()
+			return
+		}
+		a, b := mk(t.A), mk(t.B)
+		a.Inst, b.Inst = 0, 1
+		_ = f.applyApp(a)
+		_ = f.applyApp(b)
+		ba, _ := f.upload(0)
+		bb, _ := f.upload(1)
+		if order == 0 {
+			_ = f.merge(0, bb)
+			_ = f.merge(1, ba)
+		} else {
+			_ = f.merge(1, ba)
+			_ = f.merge(0, bb)
+		}
+		rounds, err := f.converge()
+		if err != nil {
+			res.Violate("closing-phase-error", err.Error(), f.wit(""))
+			f.close()
+			return
+		}
+		st := f.finalOracle(rounds)
+		if st != nil {
+			finals = append(finals, st["d0"]["k"])
+		}
+		f.close()
+	}
+	if len(finals) == 2 && finals[0] != finals[1] {
+		res.Violate("tie-order-dependent", fmt.Sprintf("the tie between %s and %s at timestamp %d ends as %v in one arrival order and %v in the other", t.A, t.B, t.TS, finals[0], finals[1]), map[string]any{"tie": t})
+	}
+	res.NonTrivial = true
+	res.Count("tie_cases", 1)
+	res.Sample = map[string]any{"tie": t, "result": fmt.Sprint(finals)}
 }
